@@ -48,6 +48,32 @@ class PyDriver:
         self.a5 = load_a5()
         from a5.core import serialization, cell_info, compact, hex as hexm, origin, hilbert
         self.ser, self.ci, self.cp, self.hexm, self.org, self.hb = serialization, cell_info, compact, hexm, origin, hilbert
+        # the public names of the package must BE the functions the properties are anchored in (a wrapper or a swapped export would make every
+        # answer obtained through the submodules meaningless for a user of `import a5`)
+        self.export_problems = []
+        for name, (m, attr) in {'cell_to_parent': (serialization, 'cell_to_parent'), 'cell_to_children': (serialization, 'cell_to_children'),
+                                'get_resolution': (serialization, 'get_resolution'), 'get_res0_cells': (serialization, 'get_res0_cells'),
+                                'get_num_cells': (cell_info, 'get_num_cells'), 'cell_area': (cell_info, 'cell_area'),
+                                'compact': (compact, 'compact'), 'uncompact': (compact, 'uncompact'),
+                                'hex_to_u64': (hexm, 'hex_to_u64'), 'u64_to_hex': (hexm, 'u64_to_hex')}.items():
+            pub = getattr(self.a5, name, None)
+            if pub is not getattr(m, attr, None):
+                self.export_problems.append(name)
+        # every op that has a public counterpart is asked through the PUBLIC name (what `import a5` users call)
+        class _Pub:
+            pass
+        for modobj in (serialization, cell_info, compact, hexm):
+            shim = _Pub()
+            for k in dir(modobj):
+                if not k.startswith('__'):
+                    setattr(shim, k, getattr(modobj, k))
+            for name in ('cell_to_parent', 'cell_to_children', 'get_resolution', 'get_res0_cells', 'get_num_cells', 'cell_area', 'compact', 'uncompact', 'hex_to_u64', 'u64_to_hex'):
+                if hasattr(modobj, name) and callable(getattr(self.a5, name, None)):
+                    setattr(shim, name, getattr(self.a5, name))
+            if modobj is serialization: self.ser = shim
+            elif modobj is cell_info: self.ci = shim
+            elif modobj is compact: self.cp = shim
+            else: self.hexm = shim
 
     def run(self, line):
         t = line.split()
@@ -79,6 +105,9 @@ class PyDriver:
     # API over time - the same argument object reused after an in-place update, a returned list/dict/shape mutated
     # or still held while the next call is made.  An answer that depends on any of that is reported as
     # `err StateDependent <what>` (the model, a pure function, can never agree with it).
+    PUBLIC_OF_OP = {'parent': 'cell_to_parent', 'children': 'cell_to_children', 'res': 'get_resolution', 'res0': 'get_res0_cells', 'ncells': 'get_num_cells',
+                    'area': 'cell_area', 'compact': 'compact', 'uncompact': 'uncompact', 'hex': 'u64_to_hex', 'unhex': 'hex_to_u64'}
+
     def dispatch(self, t):
         ans = self.dispatch0(t)
         for kind, (obj, snap_fn, snap) in list(self.__dict__.setdefault('held', {}).items()):
